@@ -425,7 +425,45 @@ READER_EXEMPT = {
     "ReaderState::close_expanded_empty|call:split_off|split_off(&self.opened_buffer, Option::unwrap(Vec::pop(&self.opened_starts)))": "the popped start is a former opened_buffer.len() (C04 R3)",
 }
 DE_ENTRIES = ("src/de/",)
-DE_EXEMPT = {}
+DE_EXEMPT = {
+    # ---- J7 library facts
+    "QNameDeserializer::from_elem|call:unwrap|unwrap(String::from_utf8(name as Owned.0))": "J7: taken only when decoder.decode() returned Cow::Borrowed for these very bytes, i.e. they are valid UTF-8",
+    # ---- J5 local index arguments (ranges produced by the attribute iterator / searches over the same string)
+    "MapAccess<'de>>::next_key_seed|index-range|index(&(*Deref>::deref(..)), Into<U>>::into(Try>::branch(..) as Continue.0 as Some.0).0)": "J5: key range produced by IterState::next over self.start.buf (C11)",
+    "SimpleTypeDeserializer::from_part|index-range|index(&value as Owned.0, range)": "J5: value range produced by IterState::next over the same start-tag buffer (ValueSource::Attribute, C11)",
+    "SimpleTypeDeserializer::from_part|index-range|index(&(*value as Borrowed.0), range)": "J5: value range produced by IterState::next over the same start-tag buffer (C11)",
+    "Content::as_str|call:split_at|split_at(&(*Deref>::deref(..)), self as Owned.1)": "J5: Owned(s, offset): offset is a sum of positions found by memchr/position in s (ListIter), always a char boundary (delimiter is ASCII space)",
+    "SeqAccess<'de>>::next_element_seed|call:split_at|split_at(&(*Deref>::deref(..)), content' as Owned.1)": "J5: same offset invariant of Content::Owned",
+    "SeqAccess<'de>>::next_element_seed|call:split_at|split_at(&(*content' as Slice.0), Iterator>::position": "J5: position of the first non-space byte of this string",
+    "SeqAccess<'de>>::next_element_seed|call:split_at|split_at(&(*content' as Input.0), Iterator>::position": "J5: position of the first non-space byte of this string",
+    "SeqAccess<'de>>::next_element_seed|call:split_at|split_at(&(*content' as Slice.0), memchr::memchr(32": "J5: memchr position of an ASCII space in this string",
+    "SeqAccess<'de>>::next_element_seed|call:split_at|split_at(&(*content' as Input.0), memchr::memchr(32": "J5: memchr position of an ASCII space in this string",
+    "SeqAccess<'de>>::next_element_seed|call:split_at|split_at(&(*Deref>::deref(..)), (content' as Owned.1 Add memchr::memchr": "J5: skip + memchr position within s[skip..]",
+    "Deserializer::start_replay|call:split_off|split_off(&self.write, checkpoint)": "J5: checkpoint is a former self.write.len() returned by skip_checkpoint() and write only grows between checkpoint and replay (C20 R2)",
+    # ---- J1 peek-then-next (re-verified by rule J1 for the in-function sites)
+    "SeqAccess<'de>>::next_element_seed|panic|panic(\"internal error: entered unreachable code\")": "J1: next() follows a peek() of the same variant in the same loop iteration (rule J1)",
+    # ---- J2 flag-carried protocol (re-verified by rule J2)
+    "MapAccess<'de>>::next_value_seed|panic|panic(\"internal error: entered unreachable code\")": "J2: ValueSource::Text is written only where peek() returned Text (rule J2 `source=Text`)",
+    "Deserializer<'de>>::deserialize_seq|panic|panic(\"internal error: entered unreachable code\")": "J2: fixed_name == true only for ValueSource::Nested, i.e. after peek() returned Start (rule J2 `fixed_name`)",
+    "Deserializer<'de>>::deserialize_enum|panic|panic(\"internal error: entered unreachable code\")": "J2: fixed_name == true only after peek() returned Start (rule J2 `fixed_name`)",
+    "EnumAccess<'de>>::variant_seed|panic|panic(\"internal error: entered unreachable code\")": "J2: MapValueDeserializer is created only for ValueSource::{Content, Nested}, i.e. after peek() returned Text or Start (rule J2)",
+    "VariantAccess<'de>>::unit_variant|panic|panic_fmt": "J2: variant_seed peeked Start or Text and consumed nothing (rule J2 `is_text`)",
+    "VariantAccess<'de>>::newtype_variant_seed|panic|panic_fmt": "J2: is_text == true only when variant_seed peeked Text (rule J2 `is_text`)",
+    "VariantAccess<'de>>::tuple_variant|panic|panic_fmt": "J2: is_text == true only when variant_seed peeked Text (rule J2 `is_text`)",
+    "VariantAccess<'de>>::struct_variant|panic|panic_fmt": "J2: variant_seed peeked Start or Text and consumed nothing (rule J2 `is_text`)",
+    "Deserializer::skip_next_tree|panic|panic_fmt": "J2: documented precondition `Only call this if the next event is a start event`; callers peek Start first",
+    # ---- J3 reader guarantees matched tags (re-verified by rule J3)
+    "EnumAccess<'de>>::variant_seed|panic|panic_fmt(Arguments::new": "J3: an End event cannot be the next event of a value position: the reader rejects stray/mismatched end tags (rule J3) and every Start consumer consumes through the matching End",
+    "Deserializer::read_string_impl|panic|panic_fmt(Arguments::new": "J3: same guarantee (rule J3)",
+    "Deserializer<'de>>::deserialize_struct|panic|panic_fmt(Arguments::new": "J3: same guarantee (rule J3)",
+    "Deserializer<'de>>::deserialize_unit|panic|panic_fmt(Arguments::new": "J3: same guarantee (rule J3)",
+    # ---- J4 merging transducer (re-verified by rule J4)
+    "XmlReader::drain_text|panic|panic_fmt": "J4: reached only when the lookahead is Text or CData, both handled (rule J4 `drain_text:handles`)",
+    "Deserializer::read_text|panic|panic(\"internal error: entered unreachable code\")": "J4: two consecutive DeEvent::Text cannot occur (rule J4)",
+    # ---- J6 container just filled (re-verified by rule J6)
+    "Deserializer::peek|panic|panic(\"internal error: entered unreachable code\")": "J6: the queue / peek slot was filled just above (rule J6)",
+    "Deserializer::last_peeked|call:expect|expect(": "J6: called only right after peek() returned a reference to this very slot (J1 one call level up)",
+}
 
 
 def site_key(s):
